@@ -18,6 +18,7 @@ func init() {
 			"PV-ROLE APIFlag.Set stores its argument verbatim; PV-GUARD each of since/start/end is parsed under conditions on that flag only",
 			"PV-GUARD --since: the parsed duration is not compared with a constant to choose a default",
 			"PV-API integer spellings via strconv.ParseInt only; --since only from model.ParseDuration",
+			"PV-ROLE EvalParams are not modified between the CLI and the evaluators",
 		},
 		NotDecided: []string{"float rounding of fractional seconds beyond 'rounded, not truncated'", "model.ParseDuration semantics"},
 		Rules: func(r *Run) {
@@ -30,6 +31,7 @@ func init() {
 			ruleSinceZeroIsAValue(r)
 			ruleTimestampIntegerSpellings(r)
 			ruleSinceOnlyPromDuration(r)
+			ruleEvalParamsUnmodified(r)
 		},
 	})
 }
